@@ -99,7 +99,20 @@ Lemma is_upper_iff : forall x, is_upper x = true <-> upper_char x.
 Proof. intro x. unfold is_upper, upper_char. rewrite andb_true_iff, !N.leb_le. tauto. Qed.
 
 Lemma is_digit_iff : forall x, is_digit x = true <-> digit_char x.
-Proof. intro x. unfold is_digit, digit_char. rewrite andb_true_iff, !N.leb_le. tauto. Qed.
+Proof.
+  intro x. unfold is_digit, digit_char. rewrite existsb_exists. split.
+  - intros [r [H1 H2]]. exists r. split; auto. apply andb_true_iff in H2. rewrite !N.leb_le in H2. exact H2.
+  - intros [r [H1 H2]]. exists r. split; auto. apply andb_true_iff. rewrite !N.leb_le. exact H2.
+Qed.
+
+Lemma nd_ranges_above_slash : forallb (fun r => (48 <=? fst r)%N) nd_ranges = true.
+Proof. vm_compute. reflexivity. Qed.
+
+Lemma digit_char_ge : forall x, digit_char x -> (48 <= x)%N.
+Proof.
+  intros x [r [H1 H2]]. pose proof nd_ranges_above_slash as H. rewrite forallb_forall in H.
+  specialize (H r H1). apply N.leb_le in H. lia.
+Qed.
 
 Definition upper_of (c : cfg) : bool := syntax_upper (c_syntax c).
 Definition dollar_of (c : cfg) : bool := syntax_dollar (c_syntax c).
@@ -187,7 +200,7 @@ Lemma index_seg_plain : forall s, index_seg s -> nodot s /\ nonl s.
 Proof.
   intros s [ds [_ [HF E]]]. subst s. unfold nodot, nonl.
   assert (Hd : Forall (fun x => x <> dot /\ x <> 10%N) ds).
-  { eapply Forall_impl; [|exact HF]. intros x Hx. unfold digit_char in Hx. unfold dot. lia. }
+  { eapply Forall_impl; [|exact HF]. intros x Hx. apply digit_char_ge in Hx. unfold dot. lia. }
   split.
   - constructor; [unfold dot; lia|]. apply Forall_app. split.
     + eapply Forall_impl; [|exact Hd]. intros x Hx. simpl in Hx. destruct Hx; assumption.
